@@ -3,7 +3,7 @@
    invocation in order, final callback lists); check_case re-runs the model and compares. *)
 From Coq Require Import List Arith ZArith NArith Bool.
 Import ListNotations.
-Require Import FV.Base.Util FV.Gen.C12 FV.C12.Model.
+Require Import FV.Base.Util FV.Gen.C12 FV.C12.Model FV.C12.ConcModel.
 
 Definition tnum_eqb (a b : tnum) : bool :=
   match a, b with
@@ -38,10 +38,29 @@ Inductive case :=
        (writes : list (nat * nat * nat * option nat * option nat * option (list nat * list nat * list nat)))
            (* datatype, value passed, driver result, observed at the driver, observed in the cache;
               for a parameter that is an array: elements of the previous value, of the value passed, observed at the driver *)
-       (reads : list (nat * nat * option nat)).                         (* datatype, driver result, observed in the cache *)
+       (reads : list (nat * nat * option nat))                          (* datatype, driver result, observed in the cache *)
+(* concurrent run (ConcModel.v): description, import table, callbacks registered before the start, the programs of
+   the callers, the executed steps of receive thread / transmissions / callers in schedule order, and what the
+   implementation did: what every call saw when it returned (in order of return), final cache, invocation log *)
+| CConc (d : dsc) (imp : list (nat * nat * option nat)) (regs : list (ckey * cbname * nat))
+        (progs : list (list call)) (steps : list cstep)
+        (o_seen : list (nat * nat * obsv)) (o_cache : list (key * entry)) (o_log : list inv).
 
 Definition model_final (d : dsc) imp bh ops : st :=
   run (the_client d) (imp_of imp) (beh_of bh) (st0 [0]) ops.
+
+Definition obsv_eqb (a b : obsv) : bool :=
+  match a, b with
+  | OSeen x, OSeen y => opt_eqb entry_eqb x y
+  | ORaised, ORaised => true
+  | _, _ => false
+  end.
+Definition seen_eqb (a b : nat * nat * obsv) : bool :=
+  let '(i, n, o) := a in let '(i', n', o') := b in Nat.eqb i i' && Nat.eqb n n' && obsv_eqb o o'.
+Definition conc_base (regs : list (ckey * cbname * nat)) : st :=
+  fold_left (fun s r => let '(k, cn, c) := r in register (beh_of []) s k cn c) regs (st0 [0]).
+Definition conc_final (d : dsc) imp regs progs steps : cst :=
+  crun (the_client d) (imp_of imp) (beh_of []) (cinit (conc_base regs) progs) steps.
 
 Definition check_case (c : case) : bool :=
   match c with
@@ -59,6 +78,12 @@ Definition check_case (c : case) : bool :=
                         end && opt_eqb Nat.eqb c' o_c) writes
       && forallb (fun x => let '(dt, r, o_c) := x in
                            opt_eqb Nat.eqb (e2e_read (imp_of exp dt) (imp_of imp dt) r) o_c) reads
+  | CConc d imp regs progs steps o_seen o_cache o_log =>
+      let s := conc_final d imp regs progs steps in
+      negb (stuck s)
+      && list_eqb seen_eqb (rev (seen s)) o_seen
+      && list_eqb (pair_eqb key_eqb entry_eqb) (cache (base s)) o_cache
+      && list_eqb inv_eqb (rev (log (base s))) o_log
   end.
 
 (* diagnosis: what the model computes *)
@@ -66,4 +91,12 @@ Definition model_result (c : case) : list (key * entry) * list inv :=
   match c with
   | CMsgs d imp bh ops _ _ _ => let s := model_final d imp bh ops in (cache s, rev (log s))
   | CE2E _ _ _ _ => ([], [])
+  | CConc d imp regs progs steps _ _ _ =>
+      let s := conc_final d imp regs progs steps in (cache (base s), rev (log (base s)))
+  end.
+Definition model_conc (c : case) : bool * list (nat * nat * obsv) * rxpc :=
+  match c with
+  | CConc d imp regs progs steps _ _ _ =>
+      let s := conc_final d imp regs progs steps in (stuck s, rev (seen s), rx s)
+  | _ => (false, [], RIdle)
   end.
